@@ -8,11 +8,12 @@ import VaxisModel.Lemmas.ParserConform
 import VaxisModel.Lemmas.ParserParams
 import VaxisModel.Lemmas.Parser
 import VaxisModel.Lemmas.ParserAbs
+import VaxisModel.Lemmas.ParserDcs
 
 namespace VaxisModel.Props.C02
 open VaxisModel.Model.ParserTable VaxisModel.Model.Parser
 open VaxisModel.Lemmas.ParserConform VaxisModel.Lemmas.ParserParams VaxisModel.Lemmas.Parser
-open VaxisModel.Lemmas.ParserAbs
+open VaxisModel.Lemmas.ParserAbs VaxisModel.Lemmas.ParserDcs
 
 /-! ## The table -/
 
@@ -331,5 +332,34 @@ theorem malformed_stays (s : PState)
 theorem text_in_order (s : PState) (hs : s.state = .ground) (w : List Nat) (hw : ∀ b ∈ w, 0x20 ≤ b) :
     run s w = (s, w.map .print) :=
   run_ground_text w hw s hs
+
+/-- **DCS round trip.** `ESC P <private>? <params> <intermediates> <final> <data> ESC \` for every
+    parameter list (values < 2^63), intermediates, final 40–7E and non-empty data of runes ≥ 0x20
+    other than DEL: exactly one DCS item with the exact final, intermediates (private marker first),
+    parameters and data, delivered when the ESC arrives; the `\` delivers nothing; the accumulator
+    is left empty.  From any state with the exit function unset and no DCS pending. -/
+theorem dcs_roundtrip (s : PState) (he : s.exit = none) (hd : s.dcs = {}) (priv : Option Nat) (ps inters : List Nat)
+    (final : Nat) (data : List Nat)
+    (hp : ∀ p ∈ priv, 0x3C ≤ p ∧ p ≤ 0x3F) (hok : ∀ x ∈ ps, x < 9223372036854775808)
+    (hi : ∀ b ∈ inters, 0x20 ≤ b ∧ b ≤ 0x2F) (hf1 : 0x40 ≤ final) (hf2 : final ≤ 0x7E)
+    (hdata : ∀ b ∈ data, 0x20 ≤ b ∧ b ≠ 0x7F) (hne : data ≠ []) :
+    run s (0x1B :: 0x50 :: (priv.toList ++ (encDcs ps ++ (inters ++ (final :: (data ++ [0x1B, 0x5C])))))) =
+      ({ s with state := .ground, inter := [], params := [], exit := none, ignoreST := false, dcs := {} },
+       [.dcs final (priv.toList ++ inters) (ps.map Int.ofNat) data]) := by
+  simp only [run, pstep_esc s he]
+  rw [escape_dcs _ rfl]
+  simp only [List.nil_append]
+  cases hpriv : priv with
+  | none =>
+    simp only [Option.toList, List.nil_append]
+    rw [dcs_tail _ (Or.inl rfl) (by rfl) (by exact hd) ps inters final data hok hi hf1 hf2 hdata hne]
+    simp
+  | some p =>
+    have hp' := hp p (by simp [hpriv])
+    simp only [Option.toList, List.cons_append, List.nil_append, run]
+    rw [dcs_private _ rfl p hp'.1 hp'.2]
+    simp only []
+    rw [dcs_tail _ (Or.inr rfl) (by rfl) (by exact hd) ps inters final data hok hi hf1 hf2 hdata hne]
+    simp
 
 end VaxisModel.Props.C02
